@@ -1,7 +1,7 @@
 import Sbepp.Drive.Common
 import Sbepp.Extracted.Kernels
 import Sbepp.Spec.Bits
-import Sbepp.Lemmas.Bits
+import Sbepp.Rt.BitsSeq
 
 namespace Sbepp.Drive.C15
 open Sbepp Sbepp.Drive Sbepp.Extracted
